@@ -15,7 +15,7 @@ from ..ref import ref_curve as rc
 PROPERTY = "C19"
 LEVEL = "model_checking"
 
-POINT_SLOTS = ["G", "P", "N", "A", "R"]
+POINT_SLOTS = ["G", "H", "P", "N", "A", "R"]
 
 
 def toy():
@@ -39,6 +39,13 @@ class Pool(object):
         self.obj["G"] = ec.PointJacobi(self.curvefp, t.G[0], t.G[1], 1, n,
                                        generator=True)
         self.val["G"] = m[1]
+        # H: generator-flagged (lazy table) but NOT normalised: the table is
+        # built from a point whose Z is not 1
+        zh = 5
+        self.obj["H"] = ec.PointJacobi(self.curvefp, m[2][0] * zh * zh % p,
+                                       m[2][1] * zh ** 3 % p, zh, n,
+                                       generator=True)
+        self.val["H"] = m[2]
         z = 3
         self.obj["P"] = ec.PointJacobi(self.curvefp, m[5][0] * z * z % p,
                                        m[5][1] * z ** 3 % p, z, n)
@@ -120,7 +127,7 @@ def canon(pool):
 
 
 KS = [0, 1, 2, 3, -1]          # plus n-1, n, n+1 appended per curve
-MULADD = [(1, 1), (2, -1), (0, 3), (3, 0)]
+MULADD = [(3, 5), (1, 1), (2, -1), (5, 3), (0, 3), (3, 0)]
 
 
 def enabled_events(pool, menu):
@@ -149,8 +156,8 @@ def enabled_events(pool, menu):
             ky = kinds[y]
             ev.append(("eq", x, y))
             ev.append(("add", x, y))
-            if kx == "J" and (menu >= 2 or x in ("G", "P")):
-                for ab in (MULADD if menu >= 2 else MULADD[:2]):
+            if kx == "J" and (menu >= 2 or x in ("G", "P", "H")):
+                for ab in (MULADD if menu >= 2 else MULADD[:3]):
                     ev.append(("mul_add", x, y, ab))
     ev += [("vk.precompute", True), ("vk.precompute", False), ("vk.verify",),
            ("vk.to_string", "raw"), ("vk.to_string", "compressed"),
